@@ -31,7 +31,7 @@ property while the library still imports, and the existing test-suite still pass
    argument combination, a multi-step sequence of operations, a particular ordering/interleaving, a crash or fault at a particular
    point, or two cooperating sites that each look fine alone. Prefer breaking a DIFFERENT clause of the property with A and with B.
  * The existing tests must still pass: run   /venv/bin/python /tmp/seed/baseline.py /tmp/seed/{tag}   (≈ 1.5 min; it must print missing=0).
-   Run it for A alone and for B alone (apply one at a time: `git stash` / `git checkout -- .` between them).
+   Run it for A alone and for B alone (apply one at a time; NEVER use `git stash` — the stash is shared by all worktrees of /repo and other engineers work in parallel: save with `git diff > /tmp/seed/out/{tag}/mutation_A.diff`, reset with `git checkout -- .`, re-apply with `git apply`).
  * Write a small demonstration program for each (demo_A.py, demo_B.py; plain python, exit code 1 and a message when the property is
    violated, exit 0 otherwise) that FAILS with the mutation applied and PASSES on the unmodified worktree. The demo should state in a
    comment which clause of the property it shows broken and why the mutation needs the specific trigger.
